@@ -222,7 +222,12 @@ def maxabs(*args, nan=True):
         npmin, npmax = np.nanmin, np.nanmax
     else:
         npmin, npmax = np.min, np.max
-    absolute = [npmax(np.abs([npmin(i), npmax(i)])) for i in arrays]
+    # Convert the extremes to Python numbers before taking the absolute value:
+    # the most negative value of a signed integer type has no positive
+    # counterpart in that type (np.abs(np.int8(-128)) is -128).
+    absolute = [
+        npmax([abs(npmin(i).item()), abs(npmax(i).item())]) for i in arrays
+    ]
     return npmax(absolute)
 
 
